@@ -735,24 +735,253 @@ Proof.
   apply pad_write. apply repeat_length.
 Qed.
 
-Lemma helper_mem_frame core p h key in_ mode a : a < length h ->
-  array (fst (helper_mem core p h key in_ mode)) a = array h a.
+(* h extends h0: the arrays of h0 are still there, unchanged *)
+Definition ext (h0 h : heap) : Prop := length h0 <= length h /\ forall a, a < length h0 -> array h a = array h0 a.
+(* a slice into an array that did not exist in h0 *)
+Definition fresh (h0 : heap) (s : slice) : Prop := length h0 <= s_arr s.
+
+Lemma ext_refl h : ext h h.
+Proof. split; [lia|reflexivity]. Qed.
+
+Lemma array_app_old (h : heap) x a : a < length h -> array (h ++ [x]) a = array h a.
+Proof. intros H. unfold array. apply app_nth1. exact H. Qed.
+
+Lemma array_app_new (h : heap) x : array (h ++ [x]) (length h) = x.
+Proof. unfold array. rewrite app_nth2, Nat.sub_diag by lia. reflexivity. Qed.
+
+Lemma array_set_other (h : heap) a b v : a <> b -> array (set_nth h b v) a = array h a.
+Proof. intros H. unfold array. apply nth_set_nth_other. exact H. Qed.
+
+Lemma array_set_same (h : heap) a v : a < length h -> array (set_nth h a v) a = v.
+Proof. intros H. unfold array. apply nth_set_nth_same. exact H. Qed.
+
+Lemma ext_app h0 h x : ext h0 h -> ext h0 (h ++ [x]).
 Proof.
-  intros Ha. unfold helper_mem.
-  destruct (negb (Nat.eqb (length key) 16)); [reflexivity|].
-  destruct mode; [|reflexivity].
-  pose proof (pkcs7Padding_mem_frame h in_ a Ha) as H.
-  destruct (pkcs7Padding_mem h in_) as [h' out]. exact H.
+  intros [H1 H2]. split; [rewrite app_length; lia|]. intros a Ha. rewrite array_app_old by lia. apply H2, Ha.
 Qed.
 
-Lemma helper_mem_value core p h key in_ mode : slice_valid h in_ ->
-  snd (helper_mem core p h key in_ mode) = helper core p key (read h in_) mode.
+Lemma ext_set h0 h b v : ext h0 h -> length h0 <= b -> ext h0 (set_nth h b v).
 Proof.
-  intros Hv. unfold helper_mem, helper.
-  destruct (negb (Nat.eqb (length key) 16)); [reflexivity|].
-  destruct mode; [|reflexivity].
-  pose proof (pkcs7Padding_mem_value h in_ Hv) as H.
-  destruct (pkcs7Padding_mem h in_) as [h' out]. cbn [snd]. rewrite H. reflexivity.
+  intros [H1 H2] Hb. split; [rewrite set_nth_length; exact H1|].
+  intros a Ha. rewrite array_set_other by lia. apply H2, Ha.
+Qed.
+
+Lemma make_ext h0 h l c : ext h0 h -> ext h0 (fst (make h l c)) /\ fresh h0 (snd (make h l c)).
+Proof. intros H. unfold make, fresh. cbn [fst snd s_arr]. split; [apply ext_app, H|apply H]. Qed.
+
+Lemma copy_into_ext h0 h d src : ext h0 h -> fresh h0 d -> ext h0 (copy_into h d src).
+Proof. intros H Hd. unfold copy_into. apply ext_set; assumption. Qed.
+
+Lemma append_ext h0 h s bs : ext h0 h -> fresh h0 s -> ext h0 (fst (append h s bs)) /\ fresh h0 (snd (append h s bs)).
+Proof.
+  intros H Hs. unfold append. destruct (Nat.leb _ _); cbn [fst snd]; unfold fresh; cbn [s_arr].
+  - split; [apply ext_set; assumption|exact Hs].
+  - split; [apply ext_app, H|apply H].
+Qed.
+
+
+Lemma firstn_zeros n m : n <= m -> firstn n (repeat 0%N m) = repeat 0%N n.
+Proof. revert m. induction n as [|n IH]; intros [|m] H; try reflexivity; [lia|]. cbn. rewrite IH by lia. reflexivity. Qed.
+
+Lemma skipn_zeros n m : skipn n (repeat 0%N m) = repeat 0%N (m - n).
+Proof. revert m. induction n as [|n IH]; intros [|m]; try reflexivity. cbn [skipn repeat Nat.sub]. apply IH. Qed.
+
+Lemma read_ext h0 h s : ext h0 h -> s_arr s < length h0 -> read h s = read h0 s.
+Proof. intros [_ H] Hs. unfold read. rewrite H by exact Hs. reflexivity. Qed.
+
+Lemma ext_trans h0 h1 h2 : ext h0 h1 -> ext h1 h2 -> ext h0 h2.
+Proof.
+  intros [L1 A1] [L2 A2]. split; [lia|]. intros a Ha. rewrite A2 by lia. apply A1, Ha.
+Qed.
+
+
+(* ---------- the loops of the helpers on the heap --------------------------------------------------------------- *)
+Lemma slot16_split (o : list N) : slot16 o = firstn (Nat.min 16 (length o)) o ++ repeat 0%N (16 - Nat.min 16 (length o)).
+Proof.
+  unfold slot16. rewrite firstn_app. destruct (Nat.le_ge_cases 16 (length o)) as [H|H].
+  - rewrite Nat.min_l by exact H. replace (16 - length o) with 0 by lia. rewrite firstn_O, Nat.sub_diag. reflexivity.
+  - rewrite Nat.min_r by exact H. rewrite firstn_all2 by exact H. rewrite firstn_all. rewrite firstn_zeros by lia. reflexivity.
+Qed.
+
+Lemma write_slot (acc o : list N) L : length acc + 16 <= L ->
+  write_at (acc ++ repeat 0%N (L - length acc)) (length acc) (firstn (Nat.min 16 (length o)) o) =
+  (acc ++ slot16 o) ++ repeat 0%N (L - (length acc + 16)).
+Proof.
+  intros HL. unfold write_at. rewrite firstn_len_app.
+  assert (Hm : length (firstn (Nat.min 16 (length o)) o) = Nat.min 16 (length o)) by (rewrite firstn_length; lia).
+  rewrite Hm. rewrite skipn_app. rewrite skipn_all2 by lia. cbn [app].
+  replace (length acc + Nat.min 16 (length o) - length acc) with (Nat.min 16 (length o)) by lia.
+  rewrite skipn_zeros. rewrite slot16_split. rewrite <- !app_assoc. f_equal. f_equal.
+  rewrite <- repeat_app. f_equal. lia.
+Qed.
+
+Section LoopMem.
+  Context {St : Type} (mk : list N -> nat -> St -> outcome (St * list N)).
+  Variables (h : heap) (in_ : slice).
+  Hypothesis Hin : s_arr in_ < length h.
+  Let v := read h in_.
+  Let L := s_len in_.
+  Let out := mkSlice (length h) 0 L L.
+
+  Lemma for_loop_mem_spec n : forall i st acc hcur,
+    ext h hcur -> length h < length hcur -> array hcur (length h) = acc ++ repeat 0%N (L - length acc) ->
+    length acc = 16 * i -> 16 * (i + n) <= L ->
+    omap (fun h2 => read h2 out) (for_loop_mem (fun hh => mk (read hh in_)) n i st hcur out) =
+      omap (fun o => o ++ repeat 0%N (L - length o)) (for_loop (mk v) n i st acc) /\
+    (forall h2, for_loop_mem (fun hh => mk (read hh in_)) n i st hcur out = Ok h2 -> ext h h2).
+  Proof.
+    induction n as [|n IH]; intros i st acc hcur Hext Hlen Harr Hacc HL.
+    - cbn [for_loop_mem for_loop omap obind]. split; [|intros h2 [= <-]; exact Hext].
+      f_equal. unfold read, out. cbn [s_arr s_len s_off skipn]. rewrite Harr.
+      apply firstn_all2. rewrite app_length, repeat_length. lia.
+    - cbn [for_loop_mem for_loop]. rewrite (read_ext h hcur in_ Hext Hin). fold v.
+      destruct (mk v i st) as [[st' o]| | |]; cbn [obind omap]; try (split; [reflexivity|discriminate]).
+      apply IH.
+      + apply copy_into_ext; [exact Hext|]. unfold fresh, window, out. cbn [s_arr]. lia.
+      + unfold copy_into. rewrite set_nth_length. exact Hlen.
+      + unfold copy_into, window, out. cbn [s_arr s_len s_off]. rewrite array_set_same by exact Hlen.
+        rewrite Harr. rewrite Nat.add_0_l, <- Hacc.
+        rewrite write_slot by lia. rewrite app_length. f_equal. f_equal.
+        unfold slot16. rewrite firstn_length, app_length, repeat_length. lia.
+      + rewrite app_length, Hacc. unfold slot16. rewrite firstn_length, app_length, repeat_length. lia.
+      + lia.
+  Qed.
+
+  (* the heap-level loop = the value-level loop on the bytes of in; nothing but the new array is written *)
+  Lemma run_loop_mem_spec st0 : slice_valid h in_ ->
+    omap snd (run_loop_mem mk st0 h in_) = (do o <- for_loop (mk v) (length v / 16) 0 st0 []; Ok (finish v o)) /\
+    (forall h2 r, run_loop_mem mk st0 h in_ = Ok (h2, r) -> ext h h2).
+  Proof.
+    intros Hv. pose proof (read_length h in_ Hv) as Hlen. fold v L in Hlen.
+    unfold run_loop_mem, make. fold L.
+    set (h1 := h ++ [repeat 0%N L]).
+    assert (L1 : length h1 = S (length h)) by (unfold h1; rewrite app_length; cbn; lia).
+    destruct (for_loop_mem_spec (L / 16) 0 st0 [] h1) as [S1 S2].
+    + unfold h1. apply ext_app, ext_refl.
+    + lia.
+    + unfold h1. rewrite array_app_new. cbn [app length]. rewrite Nat.sub_0_r. reflexivity.
+    + reflexivity.
+    + cbn [Nat.add]. pose proof (Nat.mul_div_le L 16). lia.
+    + fold out. rewrite Hlen.
+      destruct (for_loop_mem (fun hh => mk (read hh in_)) (L / 16) 0 st0 h1 out) as [h2| | |] eqn:EF;
+        cbn [obind omap snd] in *.
+      * split; [|intros h2' r [= <- _]; apply (S2 h2 eq_refl)].
+        destruct (for_loop (mk v) (L / 16) 0 st0 []) as [o| | |] eqn:EP; cbn [omap obind] in *; try discriminate S1.
+        injection S1 as S1. rewrite S1. f_equal. unfold finish. rewrite Hlen. f_equal. f_equal.
+        (* length o = 16 * (L/16) *) 
+        assert (Ho : forall n i st acc r, for_loop (mk v) n i st acc = Ok r -> length r = length acc + 16 * n).
+        { clear. induction n as [|n IH]; intros i st acc r H; cbn [for_loop] in H.
+          - injection H as <-. lia.
+          - destruct (mk v i st) as [[st' o]| | |]; cbn [obind] in H; try discriminate H.
+            apply IH in H. rewrite H, app_length. unfold slot16. rewrite firstn_length, app_length, repeat_length. lia. }
+        rewrite (Ho _ _ _ _ _ EP). cbn [length]. lia.
+      * destruct (for_loop (mk v) (L / 16) 0 st0 []); cbn [omap obind] in *; try discriminate S1.
+        split; [congruence|discriminate].
+      * destruct (for_loop (mk v) (L / 16) 0 st0 []); cbn [omap obind] in *; try discriminate S1.
+        split; [reflexivity|discriminate].
+      * destruct (for_loop (mk v) (L / 16) 0 st0 []); cbn [omap obind] in *; try discriminate S1.
+        split; [reflexivity|discriminate].
+  Qed.
+End LoopMem.
+
+(* ---------- the four helpers on the heap ------------------------------------------------------------------------- *)
+Definition core_mem_ok (cm : pkg -> list N -> heap -> slice -> bool -> outcome (heap * list N))
+                       (c : pkg -> list N -> list N -> bool -> outcome (list N)) : Prop :=
+  forall p key h in_ mode, slice_valid h in_ ->
+    omap snd (cm p key h in_ mode) = c p key (read h in_) mode /\
+    (forall h2 r, cm p key h in_ mode = Ok (h2, r) -> ext h h2).
+
+Lemma then_unpad_spec (h : heap) (r : outcome (heap * list N)) (F : outcome (list N)) (fin : list N -> list N) :
+  omap snd r = (do o <- F; Ok (fin o)) -> (forall h2 x, r = Ok (h2, x) -> ext h h2) ->
+  omap snd (then_unpad r) = (do o <- F; unpad_or_nil (fin o)) /\
+  (forall h2 x, then_unpad r = Ok (h2, x) -> ext h h2).
+Proof.
+  intros H1 H2. unfold then_unpad.
+  destruct r as [[h2 x]| | |]; destruct F as [o| | |]; cbn [omap obind snd] in *; try discriminate H1;
+    try (split; [congruence|discriminate]); try (split; [reflexivity|discriminate]).
+  injection H1 as H1. subst x.
+  destruct (unpad_or_nil (fin o)) as [u| | |]; cbn [obind omap snd]; split; try reflexivity; try discriminate.
+  intros h2' x [= <- _]. apply (H2 h2 (fin o) eq_refl).
+Qed.
+
+Section CoresMem.
+  Variables E D : list N -> list N -> list N.
+
+  Lemma Sm4Cbc_core_mem_ok : core_mem_ok (Sm4Cbc_core_mem E D) (Sm4Cbc_core E D).
+  Proof.
+    intros p key h in_ mode Hv. unfold Sm4Cbc_core_mem, Sm4Cbc_core. destruct mode.
+    - eapply run_loop_mem_spec; [exact (proj1 Hv)|exact Hv].
+    - apply then_unpad_spec; eapply run_loop_mem_spec; first [exact (proj1 Hv)|exact Hv].
+  Qed.
+
+  Lemma Sm4Ecb_core_mem_ok : core_mem_ok (Sm4Ecb_core_mem E D) (Sm4Ecb_core E D).
+  Proof.
+    intros p key h in_ mode Hv. unfold Sm4Ecb_core_mem, Sm4Ecb_core. destruct mode.
+    - eapply run_loop_mem_spec; [exact (proj1 Hv)|exact Hv].
+    - apply then_unpad_spec; eapply run_loop_mem_spec; first [exact (proj1 Hv)|exact Hv].
+  Qed.
+
+  Lemma Sm4CFB_core_mem_ok : core_mem_ok (Sm4CFB_core_mem E) (Sm4CFB_core E).
+  Proof.
+    intros p key h in_ mode Hv. unfold Sm4CFB_core_mem, Sm4CFB_core. destruct mode.
+    - eapply run_loop_mem_spec; [exact (proj1 Hv)|exact Hv].
+    - apply then_unpad_spec; eapply run_loop_mem_spec; first [exact (proj1 Hv)|exact Hv].
+  Qed.
+
+  Lemma Sm4OFB_core_mem_ok : core_mem_ok (Sm4OFB_core_mem E) (Sm4OFB_core E).
+  Proof.
+    intros p key h in_ mode Hv. unfold Sm4OFB_core_mem, Sm4OFB_core. destruct mode.
+    - eapply run_loop_mem_spec; [exact (proj1 Hv)|exact Hv].
+    - apply then_unpad_spec; eapply run_loop_mem_spec; first [exact (proj1 Hv)|exact Hv].
+  Qed.
+End CoresMem.
+
+Lemma write_at_length (a bs : list N) pos : pos + length bs <= length a -> length (write_at a pos bs) = length a.
+Proof. intros H. unfold write_at. rewrite !app_length, firstn_length, skipn_length. lia. Qed.
+
+Lemma pkcs7Padding_mem_ext h src : ext h (fst (pkcs7Padding_mem h src)).
+Proof.
+  split.
+  - unfold pkcs7Padding_mem, make, copy_into, append. cbn [s_arr s_off s_len s_cap fst snd].
+    rewrite repeat_length. rewrite (proj2 (Nat.leb_le _ _)) by lia. cbn [fst].
+    rewrite !set_nth_length, app_length. lia.
+  - intros a Ha. apply pkcs7Padding_mem_frame. exact Ha.
+Qed.
+
+Lemma pkcs7Padding_mem_valid h src : slice_valid h src ->
+  slice_valid (fst (pkcs7Padding_mem h src)) (snd (pkcs7Padding_mem h src)).
+Proof.
+  intros Hv. pose proof (read_length h src Hv) as Hlen.
+  unfold pkcs7Padding_mem, make, copy_into, append. cbn [s_arr s_off s_len s_cap fst snd].
+  rewrite repeat_length. rewrite (proj2 (Nat.leb_le _ _)) by lia. cbn [fst snd].
+  set (k := 16 - s_len src mod 16).
+  unfold slice_valid. cbn [s_arr s_off s_len s_cap].
+  split; [rewrite !set_nth_length, app_length; cbn [length]; lia|]. split; [|lia].
+  rewrite array_set_same by (rewrite set_nth_length, app_length; cbn [length]; lia).
+  rewrite array_set_same by (rewrite app_length; cbn [length]; lia).
+  rewrite array_app_new.
+  assert (Hr : read (h ++ [repeat 0%N (s_len src + k)]) src = read h src).
+  { unfold read, array. rewrite app_nth1 by apply Hv. reflexivity. }
+  rewrite Hr, Hlen, Nat.min_id.
+  rewrite write_at_length.
+  - rewrite write_at_length; [rewrite repeat_length; lia|].
+    rewrite firstn_length, Hlen, Nat.min_id, repeat_length. lia.
+  - rewrite write_at_length by (rewrite firstn_length, Hlen, Nat.min_id, repeat_length; lia).
+    rewrite !repeat_length. lia.
+Qed.
+
+Lemma helper_mem_spec cm c p h key in_ mode : core_mem_ok cm c -> slice_valid h in_ ->
+  omap snd (helper_mem cm p h key in_ mode) = helper c p key (read h in_) mode /\
+  (forall h2 r, helper_mem cm p h key in_ mode = Ok (h2, r) -> ext h h2).
+Proof.
+  intros Hok Hv. unfold helper_mem, helper.
+  destruct (negb (Nat.eqb (length key) 16)); [split; [reflexivity|discriminate]|].
+  destruct mode; [|apply Hok; exact Hv].
+  pose proof (pkcs7Padding_mem_ext h in_) as He. pose proof (pkcs7Padding_mem_valid h in_ Hv) as Hpv.
+  pose proof (pkcs7Padding_mem_value h in_ Hv) as Hval.
+  destruct (pkcs7Padding_mem h in_) as [h' padded]. cbn [fst snd] in *.
+  destruct (Hok p key h' padded true Hpv) as [H1 H2]. rewrite Hval in H1. split; [exact H1|].
+  intros h2 r Hr. apply (ext_trans h h' h2 He). apply (H2 h2 r Hr).
 Qed.
 
 (* ---------- SM4 is such a block cipher ----------------------------------------------------------------------- *)
